@@ -126,6 +126,20 @@ def main(c):
             enc[k] = rnd.choice(b"=A-_ \n\x00z")       # padding / invalid character at every position
             lines.append("b64d " + hx(bytes(enc)))
             lines.append("b64d " + hx(bytes(enc[:rnd.randrange(len(enc) + 1)])))
+    # every byte value at several positions of a valid encoding (decoders accept exactly the alphabet: no folding of high bytes)
+    for b in (b"foobar", b"fo", bytes(range(250, 256)) + b"x"):
+        enc0 = base64.b64encode(b)
+        for pos in sorted({0, 1, len(enc0) // 2, len(enc0) - 3, len(enc0) - 1}):
+            for v in range(256):
+                enc = bytearray(enc0)
+                enc[pos] = v
+                lines.append("b64d " + hx(bytes(enc)))
+        hx0 = b.hex().encode()
+        for pos in (0, len(hx0) - 1):
+            for v in range(256):
+                t = bytearray(hx0)
+                t[pos] = v
+                lines.append("hexd %s %d" % (hx(bytes(t)), len(b)))
     # byte orders: every width, order, buffer offset; boundary values
     for bits in (16, 32, 64):
         for order in "bl":
